@@ -55,6 +55,7 @@ def leaf_forms(v='v'):
     L.append(('apply * m', [('apply', E(P_STAR), 'm', [], [])]))
     L.append(('apply @x', [('apply', E(ATX), '', [], [])]))
     L.append(('apply sort', [('apply', E(P_STAR), 'm', [(E(ATX), 'number', True)], [])]))
+    L.append(('apply sort2', [('apply', E(P_STAR), 'm', [(E(fn('name')), 'text', True), (E(ATX), 'number', False)], [])]))
     L.append(('apply param', [('apply', E(P_B), 'm', [], [('p', E(fn('concat', s('P'), ATX)))])]))
     L.append(('apply text()', [('apply', E(P_TEXT), '', [], [])]))
     L.append(('call', [('call', 't', [])]))
@@ -88,6 +89,7 @@ def container_forms(wn='w'):
     C.append(('foreach text', lambda B: [('foreach', E(P_TEXT), [], B)]))
     C.append(('foreach ..', lambda B: [('foreach', E(P_PARENT), [], B)]))
     C.append(('foreach desc sorted', lambda B: [('foreach', E(P_DESC), [(E(ATX), 'number', False), (E(fn('name')), 'text', True)], B)]))
+    C.append(('foreach desc sorted name desc, @x asc', lambda B: [('foreach', E(P_DESC), [(E(fn('name')), 'text', True), (E(ATX), 'number', False), (E(SELF), 'text', True)], B)]))
     C.append(('foreach a|b sorted desc', lambda B: [('foreach', E(P_AB), [(E(fn('name')), 'text', True)], B)]))
     C.append(('copy', lambda B: [('copy', B)]))
     C.append(('var rtf body', lambda B: [('variable', wn, ('body', B)), ('lre', 'w', [], [('copyof', E(('var', wn)))]), ('valueof', E(fn('string-length', ('var', wn))))]))
